@@ -160,42 +160,22 @@ pub mod sched {
         enabled: bool,
         regions: Vec<String>,
         prefix: Vec<usize>,
-        trace: Option<String>,
         horizon: u64,
     }
 
-    fn config() -> &'static Config {
-        static CONFIG: OnceLock<Config> = OnceLock::new();
-        CONFIG.get_or_init(|| {
-            let sched = std::env::var("WILD_VERIF_SCHED").ok();
-            let prefix = sched
-                .as_deref()
-                .unwrap_or("")
-                .split(',')
-                .filter(|s| !s.is_empty() && *s != "-")
-                .map(|s| s.parse().expect("bad WILD_VERIF_SCHED"))
-                .collect();
-            Config {
-                enabled: sched.is_some(),
-                regions: std::env::var("WILD_VERIF_REGIONS")
-                    .unwrap_or_default()
-                    .split(',')
-                    .filter(|s| !s.is_empty())
-                    .map(str::to_owned)
-                    .collect(),
-                prefix,
-                trace: std::env::var("WILD_VERIF_TRACE").ok(),
-                horizon: std::env::var("WILD_VERIF_HORIZON")
-                    .ok()
-                    .and_then(|s| s.parse().ok())
-                    .unwrap_or(200_000),
-            }
-        })
-    }
+    static TRACING: AtomicBool = AtomicBool::new(false);
 
     /// Whether event tracing is on (independent of whether the scheduler is controlling anything).
     pub fn tracing() -> bool {
-        config().trace.is_some()
+        sched();
+        TRACING.load(Ordering::Relaxed)
+    }
+
+    /// (Re)configures the scheduler. Called once from the environment at first use, and once per
+    /// request in server mode.
+    pub fn configure(sched: Option<&str>, regions: &str, trace: Option<&str>, horizon: u64) {
+        let mut s = lock_sched();
+        s.configure(sched, regions, trace, horizon);
     }
 
     #[derive(Clone, Copy)]
@@ -242,9 +222,53 @@ pub mod sched {
         objects: HashMap<usize, u64>,
         abstract_state: Vec<((&'static str, u64), u64)>,
         out: Option<std::io::BufWriter<std::fs::File>>,
+        config: Config,
     }
 
     impl Sched {
+        fn configure(
+            &mut self,
+            sched: Option<&str>,
+            regions: &str,
+            trace: Option<&str>,
+            horizon: u64,
+        ) {
+            self.flush();
+            self.config = Config {
+                enabled: sched.is_some(),
+                regions: regions
+                    .split(',')
+                    .filter(|s| !s.is_empty())
+                    .map(str::to_owned)
+                    .collect(),
+                prefix: sched
+                    .unwrap_or("")
+                    .split(',')
+                    .filter(|s| !s.is_empty() && *s != "-")
+                    .map(|s| s.parse().expect("bad WILD_VERIF_SCHED"))
+                    .collect(),
+                horizon,
+            };
+            self.out = trace.map(|path| {
+                std::io::BufWriter::new(
+                    std::fs::OpenOptions::new()
+                        .create(true)
+                        .append(true)
+                        .open(path)
+                        .expect("Failed to open WILD_VERIF_TRACE"),
+                )
+            });
+            TRACING.store(self.out.is_some(), Ordering::Relaxed);
+            self.active = false;
+            self.instance = 0;
+            self.tasks.clear();
+            self.holder = None;
+            self.prev = None;
+            self.pending_spawns = 0;
+            self.decision_index = 0;
+            self.total_points = 0;
+        }
+
         fn emit(&mut self, line: &str) {
             if let Some(out) = self.out.as_mut() {
                 let _ = writeln!(out, "{line}");
@@ -328,7 +352,7 @@ pub mod sched {
             } else {
                 let k = self.decision_index;
                 self.decision_index += 1;
-                let choice = config().prefix.get(k).copied().unwrap_or(0);
+                let choice = self.config.prefix.get(k).copied().unwrap_or(0);
                 if choice >= enabled.len() {
                     self.emit(&format!(
                         "X divergence decision={k} choice={choice} enabled={}",
@@ -367,32 +391,36 @@ pub mod sched {
     fn sched() -> &'static (Mutex<Sched>, Condvar) {
         static SCHED: OnceLock<(Mutex<Sched>, Condvar)> = OnceLock::new();
         SCHED.get_or_init(|| {
-            let out = config().trace.as_ref().map(|path| {
-                std::io::BufWriter::new(
-                    std::fs::OpenOptions::new()
-                        .create(true)
-                        .append(true)
-                        .open(path)
-                        .expect("Failed to open WILD_VERIF_TRACE"),
-                )
-            });
-            (
-                Mutex::new(Sched {
-                    active: false,
-                    region: "",
-                    instance: 0,
-                    tasks: Vec::new(),
-                    holder: None,
-                    prev: None,
-                    pending_spawns: 0,
-                    decision_index: 0,
-                    total_points: 0,
-                    objects: HashMap::new(),
-                    abstract_state: Vec::new(),
-                    out,
-                }),
-                Condvar::new(),
-            )
+            let mut s = Sched {
+                active: false,
+                region: "",
+                instance: 0,
+                tasks: Vec::new(),
+                holder: None,
+                prev: None,
+                pending_spawns: 0,
+                decision_index: 0,
+                total_points: 0,
+                objects: HashMap::new(),
+                abstract_state: Vec::new(),
+                out: None,
+                config: Config {
+                    enabled: false,
+                    regions: Vec::new(),
+                    prefix: Vec::new(),
+                    horizon: 0,
+                },
+            };
+            s.configure(
+                std::env::var("WILD_VERIF_SCHED").ok().as_deref(),
+                &std::env::var("WILD_VERIF_REGIONS").unwrap_or_default(),
+                std::env::var("WILD_VERIF_TRACE").ok().as_deref(),
+                std::env::var("WILD_VERIF_HORIZON")
+                    .ok()
+                    .and_then(|s| s.parse().ok())
+                    .unwrap_or(200_000),
+            );
+            (Mutex::new(s), Condvar::new())
         })
     }
 
@@ -423,7 +451,7 @@ pub mod sched {
                 .wait_timeout(guard, Duration::from_secs(5))
                 .unwrap_or_else(|e| e.into_inner());
             guard = g;
-            if timeout.timed_out() && start.elapsed() > Duration::from_secs(30) {
+            if timeout.timed_out() && start.elapsed() > Duration::from_secs(10) {
                 let pending = guard.pending_spawns;
                 guard.emit(&format!("X stuck task={me} pending_spawns={pending}"));
                 guard.flush();
@@ -443,11 +471,10 @@ pub mod sched {
     /// Marks the start of a region whose tasks are to be scheduled. The calling thread becomes the
     /// region's root task and holds the token.
     pub fn region_begin(name: &'static str) -> RegionGuard {
-        let config = config();
-        if !config.enabled || !config.regions.iter().any(|r| r == name) {
+        let mut s = lock_sched();
+        if !s.config.enabled || !s.config.regions.iter().any(|r| r == name) {
             return RegionGuard { active: false };
         }
-        let mut s = lock_sched();
         assert!(!s.active, "WILD_VERIF: nested / concurrent regions");
         s.active = true;
         s.region = name;
@@ -597,7 +624,7 @@ pub mod sched {
             return;
         }
         s.total_points += 1;
-        if s.total_points > config().horizon {
+        if s.total_points > s.config.horizon {
             s.emit("X horizon");
             s.flush();
             eprintln!("WILD_VERIF: horizon exceeded");
@@ -923,4 +950,74 @@ pub mod sync {
             self.0.take()
         }
     }
+}
+
+/// Server mode: runs many links in this process, one per request line on stdin, so that an
+/// explorer doesn't pay for process start-up per execution. A request is tab-separated:
+/// `RUN <sched> <regions> <trace path> <horizon> <cwd> <env k=v ...> <args ...>` where the env and
+/// args fields are separated by the unit-separator character. The reply is
+/// `DONE <status> <message>` with status 0 (success), 1 (error) or 101 (panic).
+pub fn serve() -> ! {
+    use std::io::BufRead as _;
+    use std::io::Write as _;
+    let stdin = std::io::stdin();
+    let mut stdout = std::io::stdout();
+    for line in stdin.lock().lines() {
+        let Ok(line) = line else { break };
+        let fields: Vec<&str> = line.split('\t').collect();
+        if fields.len() != 8 || fields[0] != "RUN" {
+            let _ = writeln!(stdout, "DONE\t94\tbad request");
+            let _ = stdout.flush();
+            continue;
+        }
+        let sched_arg = (fields[1] != "off").then_some(fields[1]);
+        let trace = (!fields[3].is_empty()).then_some(fields[3]);
+        sched::configure(
+            sched_arg,
+            fields[2],
+            trace,
+            fields[4].parse().unwrap_or(200_000),
+        );
+        if !fields[5].is_empty() {
+            let _ = std::env::set_current_dir(fields[5]);
+        }
+        for kv in fields[6].split('\x1f').filter(|s| !s.is_empty()) {
+            if let Some((k, v)) = kv.split_once('=') {
+                // Safety: No link is running, so nothing else is reading the environment.
+                unsafe { std::env::set_var(k, v) };
+            }
+        }
+        let argv: Vec<String> = std::iter::once("wild".to_owned())
+            .chain(
+                fields[7]
+                    .split('\x1f')
+                    .filter(|s| !s.is_empty())
+                    .map(str::to_owned),
+            )
+            .collect();
+        let warnings = std::sync::Arc::new(std::sync::Mutex::new(Vec::<String>::new()));
+        let warnings2 = warnings.clone();
+        let result = std::panic::catch_unwind(move || -> crate::error::Result {
+            let mut args = crate::Args::new(|| argv.iter())?;
+            args.on_warning(Box::new(move |w| {
+                warnings2.lock().unwrap().push(format!("{w}"));
+            }));
+            args.parse(|| argv.iter())?;
+            crate::run(args)
+        });
+        sched::configure(None, "", None, 0);
+        let (status, mut message) = match result {
+            Ok(Ok(())) => (0, String::new()),
+            Ok(Err(error)) => (1, error.to_string()),
+            Err(_) => (101, "panic".to_owned()),
+        };
+        for w in warnings.lock().unwrap().iter() {
+            message.push_str("\nWARNING: ");
+            message.push_str(w);
+        }
+        let message = message.replace('\\', "\\\\").replace('\n', "\\n").replace('\t', " ");
+        let _ = writeln!(stdout, "DONE\t{status}\t{message}");
+        let _ = stdout.flush();
+    }
+    std::process::exit(0);
 }
